@@ -112,6 +112,9 @@ def _work(job):
     prop = load_prop(job['prop'])
     if job.get('custom'):
         return prop.custom_work(job, _DRV)
+    if isinstance(job.get('cfg'), dict) and isinstance(job['cfg'].get('replay_job'), dict) and job['cfg']['replay_job'].get('custom'):
+        # --replay of a case produced by a custom job: the replay file's cfg names the custom job kind
+        return prop.custom_work(dict(job, **job['cfg']['replay_job']), _DRV)
     cfg = job.get('cfg') or gen.gen(job['region'], job['gseed'], job.get('size', 'quick'))
     if hasattr(prop, 'adjust'):
         cfg = prop.adjust(cfg, job)
